@@ -311,15 +311,22 @@ func c16PipeErrors(p *Prog, r *Report) {
 		}
 		cl := f.Ev("call", "core.(*pipe).Close")
 		ok := len(cl) == 1 && cl[0].Args[0] == "recv"
+		extra := ""
 		if ok {
 			ok = false
 			for _, g := range cl[0].Guard {
-				if strings.HasSuffix(g, "!= nil") {
+				if strings.HasSuffix(g, "!= nil") && strings.Contains(g, "recv.p.") {
 					ok = true
+				} else {
+					extra = g
 				}
 			}
 		}
 		r.Check(ok, R, "pipe."+nm+"/closes-self-on-error", cl.Pos(p), "on error: p.Close() (this pipe only)", "core pipe."+nm+" does not close exactly its own pipe on a transport error")
+		// ... on every transport error, whatever it is: the close is what detaches the pipe
+		// (RemovePipe), and the protocols rely on the detach to re-send or cancel what the
+		// connection carried
+		r.Check(ok && extra == "", R, "pipe."+nm+"/closes-on-every-error", cl.Pos(p), "the close depends on nothing but the transport call having failed", "core pipe."+nm+" closes its pipe only under the further condition "+extra+": for the other errors the pipe is never detached, the protocol is never told that the connection has gone, and what it carried is neither re-sent nor cancelled")
 		others := 0
 		for _, e := range f.Ev("call", "") {
 			if strings.HasSuffix(e.What, ".Close") && e.What != "core.(*pipe).Close" {
